@@ -849,6 +849,10 @@ impl Callable for LTrim {
         if args.len() != 1 {
             return Err(EvaluationError::InvalidArguments(ScalarFunction::LTrim));
         }
+        // a NULL argument gives NULL
+        if matches!(args[0], DataType::Null) {
+            return Ok(DataType::Null);
+        }
 
         let blob = args[0].as_blob().ok_or(EvaluationError::TypeError(
             TypeSystemError::UnexpectedDataType(args[0].kind()),
@@ -865,6 +869,10 @@ impl Callable for RTrim {
         if args.len() != 1 {
             return Err(EvaluationError::InvalidArguments(ScalarFunction::RTrim));
         }
+        // a NULL argument gives NULL
+        if matches!(args[0], DataType::Null) {
+            return Ok(DataType::Null);
+        }
 
         let blob = args[0].as_blob().ok_or(EvaluationError::TypeError(
             TypeSystemError::UnexpectedDataType(args[0].kind()),
@@ -879,6 +887,10 @@ impl Callable for Lower {
     fn call(args: Vec<DataType>) -> EvaluationResult<DataType> {
         if args.len() != 1 {
             return Err(EvaluationError::InvalidArguments(ScalarFunction::Lower));
+        }
+        // a NULL argument gives NULL
+        if matches!(args[0], DataType::Null) {
+            return Ok(DataType::Null);
         }
 
         let blob = args[0].as_blob().ok_or(EvaluationError::TypeError(
@@ -895,6 +907,10 @@ impl Callable for Upper {
         if args.len() != 1 {
             return Err(EvaluationError::InvalidArguments(ScalarFunction::Upper));
         }
+        // a NULL argument gives NULL
+        if matches!(args[0], DataType::Null) {
+            return Ok(DataType::Null);
+        }
         let blob = args[0].as_blob().ok_or(EvaluationError::TypeError(
             TypeSystemError::UnexpectedDataType(args[0].kind()),
         ))?;
@@ -908,6 +924,10 @@ impl Callable for Length {
     fn call(args: Vec<DataType>) -> EvaluationResult<DataType> {
         if args.len() != 1 {
             return Err(EvaluationError::InvalidArguments(ScalarFunction::Length));
+        }
+        // a NULL argument gives NULL
+        if matches!(args[0], DataType::Null) {
+            return Ok(DataType::Null);
         }
 
         let blob = args[0].as_blob().ok_or(EvaluationError::TypeError(
